@@ -114,6 +114,14 @@ def run(chk, ctx):
     # update_output is false only where expand_c sets it
     w = sorted(set((x[0].name, x[3]) for x in P.field_writers("stmt::DataEntries", "update_output")))
     chk.require(w == [(TD + "expand_c", "assign")], "WHO", "WHO:update_output-writers", "only expand_c assigns update_output after construction", "update_output written at %s" % w)
+    ecb = P.body(TD + "expand_c")
+    if ecb is not None:
+        assigned = set()
+        for bb in sorted(ecb.reachable_blocks()):
+            for i, st in enumerate(ecb.blocks[bb]["stmts"]):
+                if st["s"] == "assign" and any(isinstance(e, dict) and e.get("f") == "update_output" for e in st["lhs"]["p"]):
+                    assigned.add(canon(P.sl(ecb).rvalue(st["rv"], bb, i)))
+        chk.require(assigned == {"0"}, "WHO", "WHO:update_output-only-cleared", "expand_c only ever sets update_output to false (for the two mid-clock rows)", "expand_c assigns update_output %s" % sorted(assigned))
     vals = set()
     for (cb, bb, i, st) in P.constructors("stmt::DataEntries"):
         t = P.sl(cb).rvalue(st["rv"], bb, i)
